@@ -306,7 +306,7 @@ func c11(r *core.Report) {
 		_ = types.Typ
 	})
 
-	r.RunRule("C11.base", "a reference is read at the location it names relative to the referring document: in resolvePath, the reference is handed back untouched (its location then owes nothing to the referring document) only when it has a scheme or host of its own (the !is_file branch) or after looking at the host of the referring document (an absolute path inside a remote document names a location of that host, not a local file)", 2, func() {
+	r.RunRule("C11.base", "a reference is read at the location it names relative to the referring document: in resolvePath, the reference is handed back untouched (its location then owes nothing to the referring document) only after looking at the host of the referring document: inside a remote document every reference without a scheme of its own — relative, absolute path, `//host/...`, `?query` — is resolved against that document's location (RFC 3986), and only a reference met in a local or in-memory document, or one with its own scheme, goes on as written", 2, func() {
 		info := p.Pkg("openapi3").TypesInfo
 		fd := p.DeclOf("openapi3", "resolvePath")
 		if len(fd.Type.Params.List) == 0 {
@@ -335,13 +335,6 @@ func c11(r *core.Report) {
 			key := fmt.Sprintf("base:resolvePath/return-as-is#%d", k)
 			why := ""
 			for _, a := range core.Atoms(core.GuardsAt(info, fd.Body, ret)) {
-				if c, ok := ast.Unparen(a.Expr).(*ast.CallExpr); ok && !a.Pos {
-					if f := core.CalleeOf(info, c); f != nil && f.Name() == "is_file" && len(c.Args) == 1 {
-						if aid, ok := ast.Unparen(c.Args[0]).(*ast.Ident); ok && info.ObjectOf(aid) == comp {
-							why = "the reference has a scheme or host of its own"
-						}
-					}
-				}
 				mentionsHost := false
 				ast.Inspect(a.Expr, func(m ast.Node) bool {
 					if sel, ok := m.(*ast.SelectorExpr); ok && sel.Sel.Name == "Host" {
